@@ -183,6 +183,39 @@ Definition micro_step (cfg : config) (nw : N) (t : table) (m : micro) : table :=
 Definition micro_run (cfg : config) (nw : N) (t : table) (ms : list micro) : table :=
   fold_left (micro_step cfg nw) ms t.
 
+(* The same loop with the iteration split where the source splits it: [M2Read c id] re-reads the entry (and keeps
+   it if it is owned by c), [M2Write c id] writes the kept entry back as lingering (linger > 0) or deletes it.
+   Another thread can get in between the two. *)
+Fixpoint upsert (id : sid) (s : stream) (t : table) : table :=
+  match t with
+  | [] => [(id, s)]
+  | (k, x) :: t' => if k =? id then (k, s) :: t'
+                    else if id <? k then (id, s) :: (k, x) :: t' else (k, x) :: upsert id s t'
+  end.
+Inductive micro2 := M2Read (c : conn) (id : sid) | M2Write (c : conn) (id : sid) | M2Remove (id : sid).
+Definition pending := list ((conn * sid) * stream).
+Definition pend_eqb (a b : conn * sid) : bool := (fst a =? fst b) && (snd a =? snd b).
+Fixpoint pend_get (k : conn * sid) (p : pending) : option stream :=
+  match p with [] => None | (k', s) :: p' => if pend_eqb k' k then Some s else pend_get k p' end.
+Definition pend_del (k : conn * sid) (p : pending) : pending := filter (fun e => negb (pend_eqb (fst e) k)) p.
+Definition micro2_step (cfg : config) (nw : N) (st : table * pending) (m : micro2) : table * pending :=
+  let '(t, p) := st in
+  match m with
+  | M2Read c id =>
+      match lookup id t with
+      | Some s => if owned_by c s then (t, ((c, id), s) :: pend_del (c, id) p) else (t, pend_del (c, id) p)
+      | None => (t, pend_del (c, id) p)
+      end
+  | M2Write c id =>
+      match pend_get (c, id) p with
+      | Some s => (if 0 <? linger cfg then upsert id (disconnect_stream cfg nw c s) t else remove id t, pend_del (c, id) p)
+      | None => (t, p)
+      end
+  | M2Remove id => (remove id t, p)
+  end.
+Definition micro2_run (cfg : config) (nw : N) (t : table) (ms : list micro2) : table :=
+  fst (fold_left (micro2_step cfg nw) ms (t, [])).
+
 (* ---------------------------------------------------------------- client side *)
 (* A proxy has a connection (or none) and a sequence counter.  A _StreamResultIterator is the state
    machine {proxy reference | dropped (None); stream id; own sequence counter}: client.py keeps no other
